@@ -15,6 +15,7 @@ from ..astutil import (Locals, anon, call_name, cfg_of, constructs_error, local_
 from ..cfg import ENTRY, EXIT, walk_own
 from ..charclass import S
 from ..core import PKG, Report
+from ..domain import CONFIG, CONST, ENUM, ESC, IDENT, NUM, WORD, is_esc
 from ..jinja_interp import expr_text
 from ..pe import StringCollector
 from ..skelscan import strip_strings
@@ -33,6 +34,7 @@ _KW = {"if", "else", "elif", "for", "in", "is", "not", "and", "or", "return", "d
        "except", "finally", "raise", "with", "while", "pass", "None", "True", "False", "lambda", "await", "async"}
 
 
+_OWN_TEXT = {CONST, ENUM, NUM, IDENT, WORD, CONFIG}  # text the generator makes itself: literals, members, numbers, sanitised names, configuration
 _FIELD = re.compile(r"\{[^{}]*\}")
 _IMPORT_LINE = re.compile(r"\s*(from\s+\S+\s+import|import)\s")
 
@@ -185,11 +187,729 @@ def _import_names(text: str) -> set[str]:
     return out
 
 
+# ---- the texts a small builder method returns (R01.1 / R01.1b) -------------------------------------------------------------------------
+# An import line is text.  Whether it is written down as one literal, put together by an f-string from locals, joined from a list of
+# names that grows on some paths, or produced by a comprehension over a tuple of names is a matter of style.  The evaluation below
+# follows the *values* through a method (abstractly: no code is run, nothing is looked up outside the syntax tree) on the paths that are
+# consistent with the known boolean atoms:
+#   VStr   the alternative texts of a string, each a sequence of parts ("lit", text) | ("expr", node of the expression that fills it)
+#   VSeq   a list / tuple whose elements are known one by one
+#   VBag   a collection of which only the strings that MAY be in it are known (sets; whatever was built by a loop of unknown length)
+#   VMap   a dict display with constant keys (a table the text is looked up in)
+#   VOpq   anything else, remembered as the expression that computed it (a local bound to it reads as that expression)
+# Every alternative that may arise is kept (where two paths join, the union), so the result over-approximates the texts of the method.
+# Of a sorted / reversed sequence only the elements are tracked, not their order, and a collection of unknown order that is joined
+# reads as its possible elements in some order: what is asked of a text is which names it imports.  A name that the method does not
+# bind reads as the module-level constant, `self.X` / `cls.X` as the class-level constant of that name.
+
+_MAXALT = 64
+_UNROLL = 8
+Parts = tuple  # tuple[("lit", str) | ("expr", ast.AST), ...]
+
+
+class VStr:
+    def __init__(self, alts: Any) -> None:
+        self.alts: frozenset[Parts] = frozenset(alts)
+
+
+class VSeq:
+    def __init__(self, items: Any) -> None:
+        self.items: tuple = tuple(items)
+
+
+class VBag:
+    def __init__(self, elems: Any = ()) -> None:
+        self.elems: frozenset[Parts] = frozenset(elems)
+
+
+class VMap:
+    def __init__(self, items: Any) -> None:
+        self.items: dict[Any, Any] = dict(items)  # constant key -> value (a dict display whose keys are constants)
+
+
+class VOpq:
+    def __init__(self, node: ast.AST) -> None:
+        self.node = node
+
+
+def _norm_parts(parts: Any) -> Parts:
+    return tuple(_merge(list(parts)))
+
+
+def _vstrings(v: Any) -> frozenset[Parts]:
+    """the strings a value is or may contain"""
+    if isinstance(v, VStr):
+        return v.alts
+    if isinstance(v, VBag):
+        return v.elems
+    if isinstance(v, VSeq):
+        return frozenset(s_ for x in v.items for s_ in _vstrings(x))
+    if isinstance(v, VMap):
+        return frozenset(s_ for x in v.items.values() for s_ in _vstrings(x))
+    return frozenset()
+
+
+def _vsame(a: Any, b: Any) -> bool:
+    if a is b:
+        return True
+    if type(a) is not type(b):
+        return False
+    if isinstance(a, VStr):
+        return a.alts == b.alts
+    if isinstance(a, VBag):
+        return a.elems == b.elems
+    if isinstance(a, VSeq):
+        return len(a.items) == len(b.items) and all(_vsame(x, y) for x, y in zip(a.items, b.items))
+    if isinstance(a, VMap):
+        return a.items.keys() == b.items.keys() and all(_vsame(x, b.items[k]) for k, x in a.items.items())
+    return a.node is b.node
+
+
+def _vjoin(a: Any, b: Any) -> Any:
+    """the value at a place that is reached with a or with b (None: not bound on that path)"""
+    if a is None or b is None:
+        return a if b is None else b
+    if _vsame(a, b):
+        return a
+    if isinstance(a, VStr) and isinstance(b, VStr):
+        return VStr(a.alts | b.alts)
+    if isinstance(a, VSeq) and isinstance(b, VSeq) and len(a.items) == len(b.items):
+        return VSeq(_vjoin(x, y) for x, y in zip(a.items, b.items))
+    if isinstance(a, (VSeq, VBag, VMap)) or isinstance(b, (VSeq, VBag, VMap)):
+        return VBag(_vstrings(a) | _vstrings(b))
+    # a text or something unknown on either path: each alternative is kept (an unknown value as the expression that computed it)
+    return VStr(frozenset().union(*[x.alts if isinstance(x, VStr) else {(("expr", x.node),)} for x in (a, b)]))
+
+
+def _join_states(states: list[dict[str, Any]]) -> dict[str, Any]:
+    out: dict[str, Any] = {}
+    for k in {k for s_ in states for k in s_}:
+        v = None
+        for s_ in states:
+            v = _vjoin(v, s_.get(k))
+        if v is not None:
+            out[k] = v
+    return out
+
+
+def parts_text(parts: Parts, hole: str = "\x00") -> str:
+    return "".join(v if k == "lit" else hole for k, v in parts)
+
+
+class _Frame:
+    def __init__(self, f: Any, cls: Any, defining: Any, depth: int) -> None:
+        self.f, self.cls, self.defining, self.depth = f, cls, defining, depth
+        self.rets: list[Any] = []
+        self.finals: list[dict[str, Any]] = []  # the locals where the method ends (a helper may have added to a collection handed to it)
+        self.exits: list[list[tuple[str, dict[str, Any]]]] = []  # per enclosing loop: states at `break` / `continue`
+
+
+class StrEval:
+    """the values of the string-structure evaluation described above; `call` gives what a method returns"""
+
+    MUTATORS = {"add", "update", "append", "extend", "insert", "discard", "remove", "clear", "sort", "reverse", "pop", "difference_update",
+                "intersection_update", "symmetric_difference_update"}
+
+    def __init__(self, ix: Any) -> None:
+        self.ix = ix
+        self.owner: dict[int, Any] = {}  # id(expression node used as a part) -> function it stands in
+        self._local_names: dict[str, set[str]] = {}
+
+    # -- methods ----------------------------------------------------------------------------------------------------------------
+    def call(self, f: Any, cls: Any, env: dict[str, bool], args: "dict[str, Any] | None" = None, depth: int = 0, defining: Any = None) -> Any:
+        return self._call(f, cls, env, args, depth, defining)[0]
+
+    def _call(self, f: Any, cls: Any, env: dict[str, bool], args: "dict[str, Any] | None", depth: int, defining: Any) -> tuple[Any, dict[str, Any]]:
+        fr = _Frame(f, cls, defining or f.cls or cls, depth)
+        state = dict(args or {})
+        if not self._block(f.node.body, fr, dict(env), state):
+            fr.finals.append(state)
+        ret = None
+        for r in fr.rets:
+            ret = _vjoin(ret, r)
+        return ret, _join_states(fr.finals)
+
+    def texts(self, f: Any, cls: Any, env: dict[str, bool]) -> set[str]:
+        """the texts (holes: \\x00) that the method's result is or may contain"""
+        return {parts_text(p_) for p_ in _vstrings(self.call(f, cls, env))}
+
+    # -- statements -------------------------------------------------------------------------------------------------------------
+    def _block(self, body: list[ast.stmt], fr: _Frame, env: dict[str, bool], state: dict[str, Any]) -> bool:
+        """executes the block on (env, state) in place; True when no path falls through its end"""
+        for st in body:
+            if self._stmt(st, fr, env, state):
+                return True
+        return False
+
+    def _stmt(self, st: ast.stmt, fr: _Frame, env: dict[str, bool], state: dict[str, Any]) -> bool:
+        if isinstance(st, ast.If):
+            v = _tv(st.test, env)
+            self.ev(st.test, fr, env, state)
+            live: list[tuple[dict[str, bool], dict[str, Any]]] = []
+            for truth, arm in ((True, st.body), (False, st.orelse)):
+                if v is (not truth):
+                    continue
+                e2, s2 = dict(env), dict(state)
+                _assume(st.test, truth, e2)
+                if not (arm and self._block(arm, fr, e2, s2)):
+                    live.append((e2, s2))
+            if not live:
+                return True
+            keep = {k: x for k, x in live[0][0].items() if all(e_.get(k) is x for e_, _ in live[1:])}
+            env.clear()
+            env.update(keep)
+            joined = _join_states([s_ for _, s_ in live])
+            state.clear()
+            state.update(joined)
+            return False
+        if isinstance(st, ast.Return):
+            fr.rets.append(self.ev(st.value, fr, env, state) if st.value is not None else None)
+            fr.finals.append(dict(state))
+            return True
+        if isinstance(st, ast.Raise):
+            return True
+        if isinstance(st, (ast.Break, ast.Continue)):
+            if fr.exits:
+                fr.exits[-1].append(("break" if isinstance(st, ast.Break) else "continue", dict(state)))
+            return True
+        stored = {norm(n) for n in ast.walk(st) if isinstance(n, (ast.Name, ast.Attribute)) and isinstance(n.ctx, (ast.Store, ast.Del))}
+        if isinstance(st, (ast.For, ast.AsyncFor)):
+            _forget(env, stored)
+            self._loop(st, fr, env, state)
+            return False
+        if isinstance(st, ast.While):
+            _forget(env, stored)
+            self.ev(st.test, fr, env, state)
+            self._weak_loop(st.body, None, None, fr, env, state)
+            if st.orelse:
+                self._block(st.orelse, fr, dict(env), state)
+            return False
+        if isinstance(st, (ast.With, ast.AsyncWith)):
+            for i_ in st.items:
+                v_ = self.ev(i_.context_expr, fr, env, state)
+                if i_.optional_vars is not None:
+                    self._bind(i_.optional_vars, VOpq(i_.context_expr) if not isinstance(v_, VOpq) else v_, state)
+            _forget(env, stored)
+            return self._block(st.body, fr, env, state)
+        if isinstance(st, (ast.Try, ast.Match)) or st.__class__.__name__ == "TryStar":
+            _forget(env, stored)
+            if isinstance(st, ast.Match):
+                self.ev(st.subject, fr, env, state)
+                outs, dead = [dict(state)], False  # no case may match
+                for case in st.cases:
+                    s2 = dict(state)
+                    if not self._block(case.body, fr, dict(env), s2):
+                        outs.append(s2)
+            else:
+                s_body = dict(state)
+                t_body = self._block(st.body, fr, dict(env), s_body)
+                outs = []
+                if not t_body:
+                    s_else = dict(s_body)
+                    if not (st.orelse and self._block(st.orelse, fr, dict(env), s_else)):
+                        outs.append(s_else)
+                mid = _join_states([state, s_body])  # an exception may leave the body anywhere
+                for h in st.handlers:
+                    s_h = dict(mid)
+                    if not self._block(h.body, fr, dict(env), s_h):
+                        outs.append(s_h)
+                dead = not outs
+                if dead:
+                    outs = [mid]
+            joined = _join_states(outs)
+            state.clear()
+            state.update(joined)
+            if getattr(st, "finalbody", None):
+                dead = self._block(st.finalbody, fr, env, state) or dead
+            return dead
+        if isinstance(st, (ast.Assign, ast.AnnAssign)):
+            if st.value is None:
+                return False
+            val = self.ev(st.value, fr, env, state)
+            tgts = st.targets if isinstance(st, ast.Assign) else [st.target]
+            truth = _tv(st.value, env) if len(tgts) == 1 and isinstance(tgts[0], ast.Name) else None
+            _forget(env, stored)
+            for t in tgts:
+                self._bind(t, val, state)
+            if truth is not None:
+                env[tgts[0].id] = truth
+            return False
+        if isinstance(st, ast.AugAssign):
+            val = self.ev(st.value, fr, env, state)
+            _forget(env, stored)
+            if isinstance(st.target, ast.Name):
+                cur = state.get(st.target.id)
+                new = self._binop(st.op, cur if cur is not None else self._opq(st.target, fr), val, st, fr, st.target, st.value)
+                if isinstance(new, VOpq) and new.node is st:
+                    state.pop(st.target.id, None)
+                else:
+                    state[st.target.id] = new
+            return False
+        if isinstance(st, ast.Delete):
+            for t in st.targets:
+                if isinstance(t, ast.Name):
+                    state.pop(t.id, None)
+            _forget(env, stored)
+            return False
+        if isinstance(st, ast.Expr):
+            self.ev(st.value, fr, env, state)
+            _forget(env, stored)
+            return False
+        return False  # pass, import, assert, global, nested definitions: nothing that a text is made of
+
+    def _bind(self, target: ast.AST, val: Any, state: dict[str, Any]) -> None:
+        if isinstance(target, ast.Name):
+            state[target.id] = val
+        elif isinstance(target, (ast.Tuple, ast.List)):
+            plain = not any(isinstance(t, ast.Starred) for t in target.elts)
+            if isinstance(val, VSeq) and plain and len(val.items) == len(target.elts):
+                for t, x in zip(target.elts, val.items):
+                    self._bind(t, x, state)
+            else:
+                for t in ast.walk(target):
+                    if isinstance(t, ast.Name):
+                        state.pop(t.id, None)
+        elif isinstance(target, ast.Subscript) and isinstance(target.value, ast.Name) and target.value.id in state:
+            cur = state[target.value.id]  # an element replaced: which one is not tracked
+            if isinstance(cur, (VSeq, VBag)):
+                state[target.value.id] = VBag(_vstrings(cur) | _vstrings(val))
+
+    def _loop(self, st: Any, fr: _Frame, env: dict[str, bool], state: dict[str, Any]) -> None:
+        it = self.ev(st.iter, fr, env, state)
+        if isinstance(it, VSeq) and len(it.items) <= _UNROLL:
+            outs: list[dict[str, Any]] = []
+            cur: "dict[str, Any] | None" = dict(state)
+            for x in it.items:
+                if cur is None:
+                    break
+                self._bind(st.target, x, cur)
+                fr.exits.append([])
+                dead = self._block(st.body, fr, dict(env), cur)
+                ex = fr.exits.pop()
+                outs += [s_ for k, s_ in ex if k == "break"]
+                nxt = [s_ for k, s_ in ex if k == "continue"] + ([] if dead else [cur])
+                cur = _join_states(nxt) if nxt else None
+            if cur is not None:
+                if st.orelse:
+                    self._block(st.orelse, fr, dict(env), cur)
+                outs.append(cur)
+            joined = _join_states(outs) if outs else dict(state)
+            state.clear()
+            state.update(joined)
+            return
+        self._weak_loop(st.body, st.target, it, fr, env, state)
+        if st.orelse:
+            self._block(st.orelse, fr, dict(env), state)
+
+    def _weak_loop(self, body: list[ast.stmt], target: "ast.AST | None", it: Any, fr: _Frame, env: dict[str, bool], state: dict[str, Any]) -> None:
+        """a loop that runs an unknown number of times: the state after it is the join over no, one and further rounds (the second
+        round starts from what the first may have left; what a text is made of does not grow after that)"""
+        acc = dict(state)
+        for _ in range(2):
+            cur = dict(acc)
+            if target is not None:
+                elem = _vstrings(it) if isinstance(it, (VBag, VSeq)) else frozenset()
+                if elem and isinstance(target, ast.Name):
+                    cur[target.id] = VStr(elem)
+                else:
+                    for t in ast.walk(target):
+                        if isinstance(t, ast.Name):
+                            cur.pop(t.id, None)
+            fr.exits.append([])
+            dead = self._block(body, fr, dict(env), cur)
+            ex = fr.exits.pop()
+            acc = _join_states([acc] + [s_ for _, s_ in ex] + ([] if dead else [cur]))
+            for k, v in list(acc.items()):  # what was a sequence before the loop and differs after it has an unknown number of elements
+                if isinstance(v, VSeq) and not _vsame(v, state.get(k)):
+                    acc[k] = VBag(_vstrings(v))
+        state.clear()
+        state.update(acc)
+
+    # -- expressions ------------------------------------------------------------------------------------------------------------
+    def _opq(self, node: ast.AST, fr: _Frame) -> VOpq:
+        self.owner[id(node)] = fr.f
+        return VOpq(node)
+
+    def _pieces(self, v: Any, node: ast.AST, fr: _Frame) -> frozenset[Parts]:
+        """the alternatives of a value where it is put into a text"""
+        if isinstance(v, VStr):
+            return v.alts
+        if isinstance(v, VOpq):
+            self.owner.setdefault(id(v.node), fr.f)
+            return frozenset({(("expr", v.node),)})
+        self.owner[id(node)] = fr.f
+        return frozenset({(("expr", node),)})
+
+    @staticmethod
+    def _product(seqs: list[frozenset[Parts]]) -> "frozenset[Parts] | None":
+        out: set[Parts] = {()}
+        for alts in seqs:
+            out = {_norm_parts(a + b) for a in out for b in alts}
+            if len(out) > _MAXALT:
+                return None
+        return frozenset(out)
+
+    def _concat(self, vals: list[tuple[Any, ast.AST]], whole: ast.AST, fr: _Frame) -> Any:
+        got = self._product([self._pieces(v, n, fr) for v, n in vals])
+        return VStr(got) if got is not None else self._opq(whole, fr)
+
+    def ev(self, e: "ast.AST | None", fr: _Frame, env: dict[str, bool], state: dict[str, Any]) -> Any:
+        if e is None:
+            return None
+        if isinstance(e, ast.Constant):
+            return VStr({_norm_parts([("lit", e.value)])}) if isinstance(e.value, str) else self._opq(e, fr)
+        if isinstance(e, ast.Name):
+            v = state.get(e.id)
+            if v is None and e.id not in self._locals(fr.f):
+                v = self._constant(fr.f.module, e.id, fr)
+            return v if v is not None else self._opq(e, fr)
+        if isinstance(e, ast.Attribute) and isinstance(e.value, ast.Name) and e.value.id in ("self", "cls") and fr.cls is not None:
+            cv = self.ix.find_classvar(fr.cls, e.attr)
+            if cv is not None and self.ix.find_method(fr.cls, e.attr) is None and fr.depth < 4:
+                v = self._literal(cv[1], cv[0].module, fr)
+                if v is not None:
+                    return v
+            return self._opq(e, fr)
+        if isinstance(e, ast.Dict):
+            vals_ = [self.ev(x, fr, env, state) for x in e.values]
+            if all(isinstance(k, ast.Constant) for k in e.keys):
+                return VMap((k.value, v) for k, v in zip(e.keys, vals_))
+            for k in e.keys:
+                self.ev(k, fr, env, state)
+            return VBag(s_ for v in vals_ for s_ in _vstrings(v))
+        if isinstance(e, ast.JoinedStr):
+            vals: list[tuple[Any, ast.AST]] = []
+            for v in e.values:
+                if isinstance(v, ast.FormattedValue) and v.conversion == -1 and v.format_spec is None:
+                    vals.append((self.ev(v.value, fr, env, state), v.value))
+                elif isinstance(v, ast.FormattedValue):
+                    self.ev(v.value, fr, env, state)
+                    vals.append((self._opq(v, fr), v))
+                else:
+                    vals.append((self.ev(v, fr, env, state), v))
+            return self._concat(vals, e, fr)
+        if isinstance(e, ast.NamedExpr):
+            v = self.ev(e.value, fr, env, state)
+            self._bind(e.target, v, state)
+            return v
+        if isinstance(e, ast.Await):
+            return self.ev(e.value, fr, env, state)
+        if isinstance(e, ast.IfExp):
+            c = _tv(e.test, env)
+            self.ev(e.test, fr, env, state)
+            if c is not None:
+                return self.ev(e.body if c else e.orelse, fr, env, state)
+            e_t, e_f = dict(env), dict(env)
+            _assume(e.test, True, e_t)
+            _assume(e.test, False, e_f)
+            return _vjoin(self.ev(e.body, fr, e_t, state), self.ev(e.orelse, fr, e_f, state))
+        if isinstance(e, ast.BoolOp):
+            out = None
+            for v in e.values:  # `x or "default"`: one of the operands
+                out = _vjoin(out, self.ev(v, fr, env, state))
+            return out
+        if isinstance(e, (ast.List, ast.Tuple, ast.Set)):
+            items: list[Any] = []
+            exact = not isinstance(e, ast.Set)
+            for x in e.elts:
+                if isinstance(x, ast.Starred):
+                    v = self.ev(x.value, fr, env, state)
+                    if isinstance(v, VSeq):
+                        items += list(v.items)
+                    else:
+                        exact = False
+                        items.append(v)
+                else:
+                    items.append(self.ev(x, fr, env, state))
+            return VSeq(items) if exact else VBag(s_ for x in items for s_ in _vstrings(x))
+        if isinstance(e, ast.BinOp):
+            l, r = self.ev(e.left, fr, env, state), self.ev(e.right, fr, env, state)
+            if isinstance(e.op, ast.Mod) and isinstance(l, VStr):
+                return self._percent(l, e, fr, env, state)
+            return self._binop(e.op, l, r, e, fr, e.left, e.right)
+        if isinstance(e, (ast.ListComp, ast.SetComp, ast.GeneratorExp)):
+            got: list[Any] = []
+            exact = self._comp(e, 0, fr, env, dict(state), got) and not isinstance(e, ast.SetComp)
+            return VSeq(got) if exact else VBag(s_ for x in got for s_ in _vstrings(x))
+        if isinstance(e, ast.Subscript):
+            v = self.ev(e.value, fr, env, state)
+            self.ev(e.slice, fr, env, state)
+            if isinstance(v, VMap):
+                return self._lookup(v, e.slice, None, env)
+            if isinstance(v, VSeq) and isinstance(e.slice, ast.Constant) and isinstance(e.slice.value, int) and not isinstance(e.slice.value, bool) \
+                    and -len(v.items) <= e.slice.value < len(v.items):
+                return v.items[e.slice.value]
+            if isinstance(v, (VSeq, VBag)) and not isinstance(e.slice, ast.Slice) and _vstrings(v):
+                return VStr(_vstrings(v))
+            return self._opq(e, fr)
+        if isinstance(e, ast.Call):
+            return self._ev_call(e, fr, env, state)
+        for ch in ast.iter_child_nodes(e):
+            if isinstance(ch, ast.expr):
+                self.ev(ch, fr, env, state)  # calls inside (a helper that adds to a collection it is handed) still take effect
+        return self._opq(e, fr)
+
+    def _locals(self, f: Any) -> set[str]:
+        if f.qual not in self._local_names:
+            a = f.node.args
+            self._local_names[f.qual] = set(Locals(f.node).defs) | {x.arg for x in [*a.posonlyargs, *a.args, *a.kwonlyargs, a.vararg, a.kwarg] if x}
+        return self._local_names[f.qual]
+
+    def _constant(self, mod: Any, name: str, fr: _Frame) -> Any:
+        """value of a module-level name that is assigned a display of literals (followed through `from x import NAME`)"""
+        r = self.ix.resolve(mod, name)
+        if not r or r[0] != "var":
+            return None
+        m2, n2 = r[1]
+        return self._literal(m2.variables[n2], m2, fr)
+
+    def _literal(self, node: ast.AST, mod: Any, fr: _Frame, depth: int = 0) -> Any:
+        """value of an expression that stands outside any function: texts, displays of them, names of further such constants"""
+        if isinstance(node, ast.Constant) and isinstance(node.value, str):
+            return VStr({_norm_parts([("lit", node.value)])})
+        if depth > 4:
+            return None
+        if isinstance(node, (ast.Tuple, ast.List)) and not any(isinstance(x, ast.Starred) for x in node.elts):
+            items = [self._literal(x, mod, fr, depth + 1) for x in node.elts]
+            return VSeq(x if x is not None else self._opq(n_, fr) for x, n_ in zip(items, node.elts))
+        if isinstance(node, ast.Set) or (isinstance(node, ast.Call) and isinstance(node.func, ast.Name) and node.func.id in ("frozenset", "set", "tuple", "list")
+                                         and len(node.args) == 1 and not node.keywords):
+            inner = node.elts if isinstance(node, ast.Set) else [node.args[0]]
+            return VBag(s_ for x in inner for s_ in _vstrings(self._literal(x, mod, fr, depth + 1)))
+        if isinstance(node, ast.Dict) and all(isinstance(k, ast.Constant) for k in node.keys):
+            vals = [self._literal(x, mod, fr, depth + 1) for x in node.values]
+            return VMap((k.value, v if v is not None else self._opq(n_, fr)) for k, v, n_ in zip(node.keys, vals, node.values))
+        if isinstance(node, ast.JoinedStr) or (isinstance(node, ast.BinOp) and isinstance(node.op, ast.Add)):
+            parts = _merge(_py_parts(node, {}))
+            for k, v in parts:
+                if k == "expr":
+                    self.owner.setdefault(id(v), fr.f)
+            return VStr({tuple(parts)}) if any(k == "lit" for k, _ in parts) else None
+        if isinstance(node, ast.Name):
+            return self._constant(mod, node.id, fr)
+        return None
+
+    def _lookup(self, m: VMap, key: ast.AST, default: Any, env: dict[str, bool]) -> Any:
+        """m[key] / m.get(key, default): the entry of a constant key or of a key whose truth is known, else any entry"""
+        k: Any = key.value if isinstance(key, ast.Constant) else _tv(key, env)
+        if k is not None or isinstance(key, ast.Constant):
+            hit = [v for kk, v in m.items.items() if kk == k and type(kk) is type(k)]
+            if hit:
+                return hit[0]
+            if isinstance(key, ast.Constant) or all(isinstance(kk, bool) for kk in m.items):
+                return default if default is not None else VBag()
+        out = default
+        for v in m.items.values():
+            out = _vjoin(out, v)
+        return out if out is not None else VBag()
+
+    def _binop(self, op: ast.AST, l: Any, r: Any, whole: ast.AST, fr: _Frame, lnode: ast.AST, rnode: ast.AST) -> Any:
+        if isinstance(op, ast.Add) and isinstance(l, VSeq) and isinstance(r, VSeq):
+            return VSeq(l.items + r.items)
+        if isinstance(op, ast.Add) and (isinstance(l, VStr) or isinstance(r, VStr)):
+            return self._concat([(l, lnode), (r, rnode)], whole, fr)
+        if isinstance(op, (ast.Add, ast.BitOr, ast.Sub, ast.BitAnd, ast.BitXor)) and (isinstance(l, (VSeq, VBag)) or isinstance(r, (VSeq, VBag))):
+            return VBag(_vstrings(l) | (_vstrings(r) if isinstance(op, (ast.Add, ast.BitOr, ast.BitXor)) else frozenset()))
+        return self._opq(whole, fr)
+
+    def _percent(self, l: VStr, e: ast.BinOp, fr: _Frame, env: dict[str, bool], state: dict[str, Any]) -> Any:
+        args = list(e.right.elts) if isinstance(e.right, ast.Tuple) else [e.right]
+        outs: set[Parts] = set()
+        for alt in l.alts:
+            if len(alt) > 1 or (alt and alt[0][0] != "lit"):
+                return self._opq(e, fr)
+            text = alt[0][1] if alt else ""
+            chunks = text.split("%s")
+            if "%%" in text or len(chunks) != len(args) + 1 or any("%" in c for c in chunks):
+                return self._opq(e, fr)
+            seqs = [frozenset({_norm_parts([("lit", chunks[0])])})]
+            for a, c in zip(args, chunks[1:]):
+                seqs += [self._pieces(self.ev(a, fr, env, state), a, fr), frozenset({_norm_parts([("lit", c)])})]
+            got = self._product(seqs)
+            if got is None:
+                return self._opq(e, fr)
+            outs |= got
+        return VStr(outs)
+
+    def _comp(self, e: Any, k: int, fr: _Frame, env: dict[str, bool], state: dict[str, Any], got: list[Any]) -> bool:
+        """elements of a comprehension, generator k onwards; True when they are known one by one"""
+        if k == len(e.generators):
+            got.append(self.ev(e.elt, fr, env, state))
+            return True
+        g = e.generators[k]
+        it = self.ev(g.iter, fr, env, state)
+        rounds: list[Any]
+        exact = isinstance(it, VSeq) and len(it.items) <= _UNROLL
+        if exact:
+            rounds = list(it.items)
+        else:
+            elem = _vstrings(it) if isinstance(it, (VBag, VSeq)) else frozenset()
+            rounds = [VStr(elem) if elem and isinstance(g.target, ast.Name) else None]
+        for x in rounds:
+            s2, e2 = dict(state), dict(env)
+            if x is None:
+                for t in ast.walk(g.target):
+                    if isinstance(t, ast.Name):
+                        s2.pop(t.id, None)
+            else:
+                self._bind(g.target, x, s2)
+            skip = False
+            for c in g.ifs:
+                v = _tv(c, e2)
+                self.ev(c, fr, e2, s2)
+                if v is False:
+                    skip = True
+                    break
+                if v is None:
+                    exact = False  # the element may be left out
+                _assume(c, True, e2)
+            if not skip:
+                exact = self._comp(e, k + 1, fr, e2, s2, got) and exact
+        return exact
+
+    def _resolve(self, c: ast.Call, fr: _Frame) -> tuple[Any, Any]:
+        """(method or function of the package that the call enters, class that defines it) for self.m() / cls.m() / super().m() / f()"""
+        fn = c.func
+        if isinstance(fn, ast.Attribute):
+            if isinstance(fn.value, ast.Name) and fn.value.id in ("self", "cls") and fr.cls is not None:
+                m = self.ix.find_method(fr.cls, fn.attr)
+                return m, (m.cls if m is not None and m.cls is not None else fr.defining)
+            if isinstance(fn.value, ast.Call) and isinstance(fn.value.func, ast.Name) and fn.value.func.id == "super" and fr.cls is not None:
+                mro = self.ix.mro(fr.cls)
+                idx = next((i for i, k in enumerate(mro) if k is fr.defining or k == fr.defining), -1)
+                for k in mro[idx + 1:]:
+                    if fn.attr in k.methods:
+                        return k.methods[fn.attr], k
+            return None, None
+        if isinstance(fn, ast.Name):
+            hs = [h for h in self.ix.all_functions if h.cls is None and h.parent is None and h.name == fn.id and h.module is fr.f.module]
+            return (hs[0], None) if len(hs) == 1 else (None, None)
+        return None, None
+
+    def _ev_call(self, c: ast.Call, fr: _Frame, env: dict[str, bool], state: dict[str, Any]) -> Any:
+        fn = c.func
+        argv = [(a, self.ev(a.value if isinstance(a, ast.Starred) else a, fr, env, state)) for a in c.args]
+        kwv = [(k, self.ev(k.value, fr, env, state)) for k in c.keywords]
+        plain = not any(isinstance(a, ast.Starred) for a in c.args) and all(k.arg for k in c.keywords)
+        name = fn.id if isinstance(fn, ast.Name) else None
+        # constructors and order-only transformations of collections
+        if name in ("set", "frozenset", "list", "tuple", "sorted", "reversed") and plain and len(argv) <= 1:
+            if not argv:
+                return VBag() if name in ("set", "frozenset") else VSeq(())
+            v = argv[0][1]
+            if isinstance(v, VSeq) and name not in ("set", "frozenset"):
+                return v
+            if isinstance(v, (VSeq, VBag)):
+                return VBag(_vstrings(v))
+            return self._opq(c, fr)
+        if name == "str" and plain and len(argv) == 1 and not kwv and isinstance(argv[0][1], VStr):
+            return argv[0][1]
+        if isinstance(fn, ast.Attribute):
+            recv = self.ev(fn.value, fr, env, state)
+            m = fn.attr
+            if m == "join" and isinstance(recv, VStr) and plain and len(argv) == 1 and isinstance(argv[0][1], (VSeq, VBag)) and \
+                    (isinstance(argv[0][1], VSeq) or argv[0][1].elems):
+                joined = argv[0][1]
+                if isinstance(joined, VBag):  # elements in some order
+                    joined = VSeq(VStr({p_}) for p_ in sorted(joined.elems, key=parts_text))
+                seqs: list[frozenset[Parts]] = []
+                for i_, x in enumerate(joined.items):
+                    if i_:
+                        seqs.append(recv.alts)
+                    seqs.append(self._pieces(x, c, fr))
+                got = self._product(seqs)
+                return VStr(got) if got is not None else self._opq(c, fr)
+            if m == "format" and isinstance(recv, VStr) and plain:
+                outs: set[Parts] = set()
+                for alt in recv.alts:
+                    if len(alt) > 1 or (alt and alt[0][0] != "lit"):
+                        return self._opq(c, fr)
+                    fields = _format_fields(alt[0][1] if alt else "", [a for a, _ in argv], {k.arg: k.value for k, _ in kwv})
+                    if fields is None:
+                        return self._opq(c, fr)
+                    byid = {id(a): v for a, v in argv}
+                    byid.update({id(k.value): v for k, v in kwv})
+                    got = self._product([frozenset({_norm_parts([(k_, v_)])}) if k_ == "lit" else self._pieces(byid[id(v_)], v_, fr) for k_, v_ in fields])
+                    if got is None:
+                        return self._opq(c, fr)
+                    outs |= got
+                return VStr(outs)
+            if isinstance(recv, VMap):
+                if m == "get" and plain and 1 <= len(argv) <= 2 and not kwv:
+                    return self._lookup(recv, argv[0][0], argv[1][1] if len(argv) == 2 else None, env)
+                if m == "values":
+                    return VBag(_vstrings(recv))
+                return self._opq(c, fr)
+            if isinstance(recv, VOpq) and m in ("add", "update", "append", "extend", "insert") and isinstance(fn.value, ast.Name) and \
+                    any(_vstrings(v) for _, v in argv):
+                recv = VBag()  # a collection that came from somewhere else: of its elements only those added here are known
+            if isinstance(recv, (VSeq, VBag)):
+                if m in self.MUTATORS and isinstance(fn.value, ast.Name):
+                    state[fn.value.id] = self._mutated(recv, m, [v for _, v in argv], c)
+                    return self._opq(c, fr)
+                if m in ("copy", "union", "__or__") and plain:
+                    if m == "copy":
+                        return recv
+                    return VBag(_vstrings(recv) | frozenset(s_ for _, v in argv for s_ in _vstrings(v)))
+                if m in ("difference", "intersection"):
+                    return VBag(_vstrings(recv))
+        h, d2 = self._resolve(c, fr)
+        if h is not None and h != fr.f and fr.depth < 4 and plain:
+            bound: dict[str, tuple[ast.AST, Any]] = {}
+            a_ = h.node.args
+            pos = [x.arg for x in [*a_.posonlyargs, *a_.args]]
+            if pos and pos[0] in ("self", "cls") and h.kind != "staticmethod" and h.cls is not None:
+                pos = pos[1:]
+            for p_, (a, v) in zip(pos, argv):
+                bound[p_] = (a, v)
+            if a_.vararg is not None:
+                bound[a_.vararg.arg] = (c, VSeq(v for _, v in argv[len(pos):]))
+            for k, v in kwv:
+                bound[k.arg] = (k.value, v)
+            e2 = {k: v for k, v in env.items() if k.startswith("self.")}
+            for p_, (a, _) in bound.items():
+                t = _tv(a, env)
+                if t is not None:
+                    e2[p_] = t
+            args = {p_: v for p_, (a, v) in bound.items() if v is not None}  # a parameter reads as the value handed to it
+            ret, finals = self._call(h, fr.cls if h.cls is not None else None, e2, args, fr.depth + 1, d2)
+            for p_, (a, v) in bound.items():  # a collection handed to the helper holds afterwards what the helper put into it
+                if isinstance(a, ast.Name) and isinstance(v, (VSeq, VBag)) and isinstance(finals.get(p_), (VSeq, VBag)) and a.id in state:
+                    state[a.id] = finals[p_]
+            if ret is not None and not isinstance(ret, VOpq):
+                return ret
+        return self._opq(c, fr)
+
+    @staticmethod
+    def _mutated(recv: Any, m: str, args: list[Any], c: ast.Call) -> Any:
+        if isinstance(recv, VSeq):
+            if m == "append" and len(args) == 1:
+                return VSeq(recv.items + (args[0],))
+            if m == "extend" and len(args) == 1 and isinstance(args[0], VSeq):
+                return VSeq(recv.items + args[0].items)
+            if m == "insert" and len(args) == 2:
+                i = c.args[0]
+                neg = isinstance(i, ast.UnaryOp) and isinstance(i.op, ast.USub)
+                n = i.operand if neg else i
+                if isinstance(n, ast.Constant) and isinstance(n.value, int) and not isinstance(n.value, bool):
+                    at = max(0, len(recv.items) - n.value) if neg else min(n.value, len(recv.items))
+                    return VSeq(recv.items[:at] + (args[1],) + recv.items[at:])
+            if m in ("sort", "reverse"):
+                return recv
+            if m == "clear":
+                return VSeq(())
+        if m == "clear":
+            return VBag()
+        added = frozenset(s_ for v in (args[1:] if m == "insert" else args) for s_ in _vstrings(v)) if m in ("add", "update", "append", "extend", "insert") \
+            else frozenset()
+        return VBag(_vstrings(recv) | added)  # removal is not tracked: the strings that MAY be in it
+
+
 def run(rep: Report, ctx: Any) -> str:
     ix = ctx.py
     jx = ctx.jinja
     it, ji = ctx.flow
-    rep.rule("R01.1", "import closure: for every property kind, requiredness and host module, every name of the import universe used by "
+    rep.rule("R01.1","import closure: for every property kind, requiredness and host module, every name of the import universe used by "
                       "the kind's macros or type strings is imported by the host header or by the kind's get_imports")
     rep.rule("R01.1b", "the literal-enum helper check_<name> is named by the same expression of the enum where it is defined, imported and "
                        "called, and imported from the module the enum is written to")
@@ -200,12 +920,18 @@ def run(rep: Report, ctx: Any) -> str:
                       "no pass mixes attributes with and without default, passes without default come first; positional parameters do not "
                       "carry defaults out of order")
     rep.rule("R01.5", "lexical neutrality: every template block leaves the lexer of the generated language in the state it found it; no "
-                      "newline-inserting filter inside a single-line string")
+                      "newline-inserting filter inside a single-line string; inside a triple-quoted literal no hole that can carry document "
+                      "text stands directly before the closing delimiter unless its escaping neutralises the quote character and the "
+                      "backslash (the last character of the text would lengthen or swallow the delimiter)")
     rep.rule("R01.6", "dispatch totality (shared with C06 R06.3)")
     rep.rule("R01.7", "a name that starts with an underscore never yields a python name that starts with one")
     rep.rule("R01.8", "argument lists have no duplicate: every rename made while resolving parameter / attribute name conflicts is followed "
                       "by a re-check (parameters: recorded in the set whose test decides between a further pass and success; attributes: "
                       "equality test of the two python names)")
+    rep.rule("R01.10", "nothing that remains imports a module that was removed - the thread of dependants is unbroken: the identities a piece "
+                       "has to be removed with (what the registry of dependencies records for a reference) are handed down to everything "
+                       "that is built inside the piece: a function that receives them passes them, or a collection that contains them, to "
+                       "every function it calls that accepts them (the registry's own methods apart)")
     rep.rule("R01.9", "no stale module: every directory that receives files whose names depend on the document is emptied earlier in the "
                       "same run, on every path")
 
@@ -227,13 +953,17 @@ def run(rep: Report, ctx: Any) -> str:
     rep.floor("model_header_imports", len(hdr["model"]), 5)
     rep.floor("endpoint_header_imports", len(hdr["endpoint"]), 5)
     sc = PathStrings(ix)
+    sv = StrEval(ix)
     proto = ix.cls("PropertyProtocol")
     universe = set(hdr["model"]) | set(hdr["endpoint"])
     kind_imports: dict[tuple[str, bool], set[str]] = {}
     for c in ix.property_classes():
         gi = ix.find_method(c, "get_imports")
+        rep.require(gi, f"{c.name}.get_imports")
         for req in (True, False):
-            strings = sc.collect(gi, c, {"self.required": req})
+            # the import lines of the kind: the texts its get_imports may return (however they are put together), and - for what is
+            # handed through code the evaluation cannot follow - every string constant on the same paths
+            strings = sv.texts(gi, c, {"self.required": req}) | sc.collect(gi, c, {"self.required": req})
             names: set[str] = set()
             for s_ in strings:
                 if _IMPORT_LINE.match(s_.replace("\x00", "H")):
@@ -412,38 +1142,60 @@ def run(rep: Report, ctx: Any) -> str:
 
     # ---- R01.4 -------------------------------------------------------------------------------------------------------------------
     # (loop variables are canonical: the variable of `for x in ITER` reads `ITER[*]`, see sa/jinja_canon.py)
-    # The class body declares its attributes in passes: loops that expand declare_property on their element, each under a condition on
-    # the element.  An attribute is declared without `= ...` exactly when it is required and has no default.  However many passes there
-    # are and however their conditions are written: every attribute falls into exactly one pass, no pass can hold both an attribute
-    # without and one with a default (within a pass the order is the list's), and no pass that can hold one with a default precedes
-    # a pass that can hold one without.  Conditions are compared as truth tables over their atoms, the element spelled `•`.
-    decl = [f for f in top if f.kind == "expr" and f.loops and f.text.startswith(f"declare_property({f.loops[-1]}[*])")]
+    # The class body declares its attributes in passes: runs of a loop over the attributes that emit `<element>.to_string()` (in place or
+    # through a macro of the template the element is handed to), each under a condition on the element.  An attribute is declared
+    # without `= ...` exactly when it is required and has no default.  However many passes there are, however they are brought about (two
+    # loops one after the other; one loop inside a loop over a literal tuple of constants, which is that loop written out once per
+    # constant; a macro expanded twice with different arguments) and however their conditions are written: every attribute falls into
+    # exactly one pass, no pass can hold both an attribute without and one with a default (within a pass the order is the list's), and
+    # no pass that can hold one with a default precedes a pass that can hold one without.  Conditions are compared as truth tables over
+    # their atoms (and / or / not / conditional expressions / == and != between boolean-valued operands), the element spelled `•`.
+    decl = _declaration_passes(mt)
     rep.check(bool(decl), "R01.4", "model.py.jinja::two-declaration-loops", "no declaration pass found in the class body", where=f"{PKG}/templates/model.py.jinja",
               lhs=len(decl), rhs="at least one")
     if decl:
-        def rel(p_: Any, atom: str) -> str:
-            return atom.replace(f"{p_.loops[-1]}[*]", "•")
+        def rel(p_: dict, atom: str) -> str:
+            return atom.replace(p_["elem"], "•") if p_["elem"] else atom
 
-        names_ = sorted({rel(p_, a_) for p_ in decl for a_ in tplq.guard_atoms(p_)})
+        # the elements of a pass are properties (the domain is required below to be the model's property lists): an attribute that every
+        # property class which declares it declares as `bool` can only be True or False
+        by_attr: dict[str, set[str]] = {}
+        for k in [proto, *ix.property_classes()]:
+            for a_, ann in k.fields.items():
+                by_attr.setdefault(a_, set()).add(norm(ann) if ann is not None else "")
+        bool_attrs = {a_ for a_, ts_ in by_attr.items() if ts_ == {"bool"}}
+        elems = {p_["elem"] for p_ in decl if p_["elem"]}
+        cond = Cond(lambda n: isinstance(n, nodes.Getattr) and isinstance(n.node, nodes.Name) and n.node.name in elems and n.attr in bool_attrs)
+
+        def site_atoms(p_: dict, site: tuple) -> list[str]:
+            return [rel(p_, a_) for t_, _ in site for a_ in cond.atoms(t_)]
+
+        def site_holds(p_: dict, site: tuple, env: dict[str, bool]) -> bool:
+            return all(cond.holds(t_, lambda a_: env[rel(p_, a_)]) == pol for t_, pol in site)
+
+        names_ = sorted({a_ for p_ in decl for site in p_["sites"] for a_ in site_atoms(p_, site)})
+        rep.require(len(names_) <= 12, "declaration conditions over at most 12 atoms")
         may: list[set[bool]] = [set() for _ in decl]  # per pass: can it hold an attribute without default (True) / with one (False)
         partition = True
         for env in tplq.assignments(names_):
-            holds = [tplq.guard_holds(p_, {a_: env[rel(p_, a_)] for a_ in tplq.guard_atoms(p_)}) for p_ in decl]
-            if sum(holds) != 1:
-                partition = False  # an attribute declared twice or not at all
+            n_decl = 0
             nd = env.get("•.default is none", False) and env.get("•.required", False)
-            for i_, h_ in enumerate(holds):
-                if h_:
+            for i_, p_ in enumerate(decl):
+                k_ = sum(site_holds(p_, site, env) for site in p_["sites"])
+                n_decl += k_
+                if k_:
                     may[i_].add(nd)
+            if n_decl != 1:
+                partition = False  # an attribute declared twice or not at all
         pure = all(len(m_) == 1 for m_ in may)
         kinds = [next(iter(m_)) for m_ in may if len(m_) == 1]
         ordered = pure and kinds == sorted(kinds, reverse=True)  # every pass without defaults before every pass with defaults
-        same_dom = {_unparen(l_) for p_ in decl for l_ in p_.loops} == {"model.required_properties + model.optional_properties"} and \
-            all(len(p_.loops) == 1 for p_ in decl)
+        same_dom = {p_["domain"] for p_ in decl} == {"model.required_properties + model.optional_properties"} and not any(p_["nested"] for p_ in decl)
         rep.check(partition and ordered and same_dom, "R01.4", "model.py.jinja::declaration-order",
                   "attributes without a default are not all declared before attributes with one (attrs raises 'No mandatory attributes allowed "
-                  "after an attribute with a default value' at import)", where=f"{PKG}/templates/model.py.jinja:{decl[0].line}",
-                  lhs=[[g for g, _ in p_.guards] for p_ in decl], rhs="passes partition the attributes; (default is none and required) first, the rest after")
+                  "after an attribute with a default value' at import)", where=f"{PKG}/templates/model.py.jinja:{decl[0]['line']}",
+                  lhs=[[[("" if pol else "not ") + rel(p_, expr_text(t_)) for t_, pol in site] for site in p_["sites"]] for p_ in decl],
+                  rhs="passes partition the attributes; (default is none and required) first, the rest after")
     em = jx.templates.get("endpoint_macros.py.jinja")
     rep.require(em is not None and "arguments" in em.macros, "endpoint_macros.py.jinja::arguments")
     arg = em.macros.get("arguments")
@@ -470,6 +1222,26 @@ def run(rep: Report, ctx: Any) -> str:
         if ("STR1" in e.kind) and re.search(r"\|(wordwrap|indent|center)\b", e.expr):
             rep.fail("R01.5", f"{e.template}::{e.macro}::{e.expr}", "a newline-inserting filter is applied inside a single-line string literal",
                      where=f"{PKG}/templates/{e.template}:{e.line}")
+    # the closing delimiter of a triple-quoted literal: a hole directly in front of it (no padding, or padding stripped by whitespace
+    # control) lets the LAST character of the text meet the delimiter - a quote makes it four quotes, a backslash escapes its first
+    # quote - so the text there must be the generator's own (literals, sanitised names, numbers, configuration) or escaped for both
+    n_tq = 0
+    glued: list[str] = []
+    for e in sorted(ji.emissions.values(), key=lambda e_: (e_.template, e_.macro, e_.expr, e_.kind)):
+        if "STR3" not in e.kind or not e.labels:
+            continue
+        n_tq += 1
+        q = e.kind[-1]
+        loose = sorted(l for l in e.labels if l not in _OWN_TEXT and not (is_esc(l) and {q, "\\"} <= set(l[len(ESC):])))
+        if not e.follow_ok and loose:
+            glued.append(f"{e.template}:{e.line}")
+            rep.fail("R01.5", f"{e.template}::{e.macro}::{e.expr}::closing-delimiter@{e.kind}",
+                     f"text labelled {loose} is emitted directly before the closing {q * 3}: a text that ends in {q} or in a backslash leaves the "
+                     "literal unterminated (SyntaxError, the module cannot be imported)", where=f"{PKG}/templates/{e.template}:{e.line}",
+                     lhs=sorted(e.labels), rhs=f"padding before the delimiter, or text escaped for {q} and backslash")
+    rep.check(not glued, "R01.5", "templates::triple-quoted::closing-delimiter-padded", f"document text directly before a closing triple quote: {glued[:3]}",
+              where="", lhs=len(glued), rhs=0)
+    rep.floor("triple_quoted_holes", n_tq, 10)
     # ---- R01.6 ------------------------------------------------------------------------------------------------------------------------
     for dk, d in sorted(ji.dispatches.items(), key=lambda kv: (kv[1].template, kv[1].macro, kv[1].expr)):
         rep.check(not d.missing_in, "R01.6", f"{d.template}::{d.macro}::{d.alias}.{d.attr}",
@@ -494,6 +1266,8 @@ def run(rep: Report, ctx: Any) -> str:
     _renames_rechecked(rep, ctx)
     # ---- R01.9 --------------------------------------------------------------------------------------------------------------------------
     _rebuilt_from_empty(rep, ctx)
+    # ---- R01.10 -------------------------------------------------------------------------------------------------------------------------
+    _dependants_handed_down(rep, ctx)
     rep.not_decided += ["syntactic validity of the composition of fragments for every document; validity of pyproject.toml beyond its string contexts"]
     return LEVEL
 
@@ -868,6 +1642,145 @@ def _canon_tpl(n: nodes.Node, ix: Any, cls: Any) -> str:
     return _canon_py(tree.body, ix, cls, {})
 
 
+# ---- declaration passes of the class body (R01.4) --------------------------------------------------------------------------------
+class Cond:
+    """template conditions as boolean functions of their atoms.  `bool_leaf(node)` says of an expression that is not taken apart that it
+    can only be True or False (an attribute declared `bool`)."""
+
+    def __init__(self, bool_leaf: Any = None) -> None:
+        self.bool_leaf = bool_leaf or (lambda n: False)
+
+    def boolean(self, n: nodes.Node) -> bool:
+        """the expression can only yield True or False (so that == / != between two of them is `iff` / `xor`)"""
+        if isinstance(n, nodes.Const):
+            return isinstance(n.value, bool)
+        if isinstance(n, (nodes.Not, nodes.Test, nodes.Compare)):
+            return True
+        if isinstance(n, (nodes.And, nodes.Or)):
+            return self.boolean(n.left) and self.boolean(n.right)
+        if isinstance(n, nodes.CondExpr):
+            return n.expr2 is not None and self.boolean(n.expr1) and self.boolean(n.expr2)
+        return bool(self.bool_leaf(n))
+
+    def iff(self, n: nodes.Node) -> "tuple[nodes.Node, nodes.Node, bool] | None":
+        """(a, b, True) for `a == b`, (a, b, False) for `a != b`, where the comparison is a boolean function of a and b"""
+        if isinstance(n, nodes.Compare) and len(n.ops) == 1 and n.ops[0].op in ("eq", "ne"):
+            a, b = n.expr, n.ops[0].expr
+            if (self.boolean(a) and self.boolean(b)) or (isinstance(a, nodes.Const) and isinstance(b, nodes.Const)):
+                return a, b, n.ops[0].op == "eq"
+        return None
+
+    def atoms(self, n: nodes.Node) -> list[str]:
+        """the atoms of a condition: what remains when and / or / not / conditional expressions / constants / (in)equalities between
+        boolean-valued operands are taken apart"""
+        if isinstance(n, nodes.Const):
+            return []
+        iff = self.iff(n)
+        if isinstance(n, (nodes.And, nodes.Or)):
+            subs = [n.left, n.right]
+        elif isinstance(n, nodes.Not):
+            subs = [n.node]
+        elif isinstance(n, nodes.CondExpr) and n.expr2 is not None:
+            subs = [n.test, n.expr1, n.expr2]
+        elif iff is not None:
+            subs = [] if isinstance(iff[0], nodes.Const) and isinstance(iff[1], nodes.Const) else [iff[0], iff[1]]
+        else:
+            return [expr_text(n)]
+        out: list[str] = []
+        for x in subs:
+            out += [a_ for a_ in self.atoms(x) if a_ not in out]
+        return out
+
+    def holds(self, n: nodes.Node, atom: Any) -> bool:
+        """truth of the condition when `atom(text)` gives the truth of each atom"""
+        if isinstance(n, nodes.Const):
+            return bool(n.value)
+        if isinstance(n, nodes.And):
+            return self.holds(n.left, atom) and self.holds(n.right, atom)
+        if isinstance(n, nodes.Or):
+            return self.holds(n.left, atom) or self.holds(n.right, atom)
+        if isinstance(n, nodes.Not):
+            return not self.holds(n.node, atom)
+        if isinstance(n, nodes.CondExpr) and n.expr2 is not None:
+            return self.holds(n.expr1, atom) if self.holds(n.test, atom) else self.holds(n.expr2, atom)
+        iff = self.iff(n)
+        if iff is not None:
+            a, b, eq = iff
+            if isinstance(a, nodes.Const) and isinstance(b, nodes.Const):
+                return (a.value == b.value) == eq  # two literals of the template
+            return (self.holds(a, atom) == self.holds(b, atom)) == eq
+        return bool(atom(expr_text(n)))
+
+
+def _declaration_passes(ti: Any) -> list[dict]:
+    """the passes in which the top level of the template declares attributes, in the order in which they run.  A pass is one run of a
+    loop (over something other than literal constants) in which `<element>.to_string()` is emitted; its *sites* are the places that
+    emit it, each with the conditions it stands under ((test, polarity), ... - variables bound to a constant or to a macro argument
+    replaced by what they are bound to).  A loop over a literal tuple / list of constants is its body once per constant; a call of a
+    macro of the template is the macro's body with the arguments for the parameters."""
+    import itertools
+
+    passes: dict[tuple, dict] = {}
+    fresh = itertools.count()
+
+    def subst(n: nodes.Node, binds: dict[str, nodes.Node]) -> nodes.Node:
+        return _tsubst(n, {k: [v] for k, v in binds.items()}) if binds else n
+
+    def output(c: nodes.Node, guards: tuple, loops: tuple, binds: dict[str, nodes.Node], path: tuple, depth: int) -> None:
+        c2 = subst(c, binds)
+        for call in ([c2] if isinstance(c2, nodes.Call) else []) + list(c2.find_all(nodes.Call)):
+            f = call.node
+            if isinstance(f, nodes.Getattr) and f.attr == "to_string" and isinstance(f.node, nodes.Name):
+                pid = next((pid for elem, pid in reversed(loops) if elem == f.node.name), None)
+                if pid is not None:
+                    passes[pid]["sites"].append(guards)
+            elif isinstance(f, nodes.Name) and f.name in ti.macros and depth < 3:
+                m = ti.macros[f.name]
+                params = [a.name for a in m.args]
+                b2: dict[str, nodes.Node] = dict(zip(params[len(params) - len(m.defaults):], m.defaults))
+                b2.update(zip(params, call.args))
+                b2.update({k.key: k.value for k in call.kwargs})
+                walk(m.body, guards, loops, b2, path + (("call", next(fresh)),), depth + 1)
+
+    def walk(body: list[nodes.Node], guards: tuple, loops: tuple, binds: dict[str, nodes.Node], path: tuple, depth: int) -> None:
+        for n in body:
+            if isinstance(n, nodes.Output):
+                for c in n.nodes:
+                    if not isinstance(c, nodes.TemplateData):
+                        output(c, guards, loops, binds, path, depth)
+            elif isinstance(n, nodes.If):
+                t = subst(n.test, binds)
+                walk(n.body, guards + ((t, True),), loops, binds, path, depth)
+                neg = guards + ((t, False),)
+                for el in n.elif_:
+                    t2 = subst(el.test, binds)
+                    walk(el.body, neg + ((t2, True),), loops, binds, path, depth)
+                    neg += ((t2, False),)
+                walk(n.else_, neg, loops, binds, path, depth)
+            elif isinstance(n, nodes.For):
+                it = subst(n.iter, binds)
+                consts = list(it.items) if isinstance(it, (nodes.Tuple, nodes.List)) and all(isinstance(x, nodes.Const) for x in it.items) else None
+                if consts is not None and isinstance(n.target, nodes.Name):
+                    for k, x in enumerate(consts):
+                        b2 = {**binds, n.target.name: x}
+                        g2 = guards + (((subst(n.test, b2), True),) if n.test is not None else ())
+                        walk(n.body, g2, loops, b2, path + (("const", id(n), k),), depth)
+                    if not consts:
+                        walk(n.else_, guards, loops, binds, path, depth)
+                    continue
+                g2 = guards + (((subst(n.test, binds), True),) if n.test is not None else ())
+                pid = path + (("loop", id(n)),)
+                elem = n.target.name if isinstance(n.target, nodes.Name) else ""
+                passes[pid] = {"domain": _unparen(expr_text(it)), "line": n.lineno, "elem": elem, "sites": [], "nested": bool(loops)}
+                walk(n.body, g2, loops + ((elem, pid),), binds, pid, depth)
+                walk(n.else_, guards, loops, binds, path, depth)
+            elif isinstance(n, (nodes.With, nodes.Scope, nodes.CallBlock, nodes.FilterBlock, nodes.AssignBlock)):
+                walk(getattr(n, "body", []), guards, loops, binds, path, depth)
+
+    walk(ti.tree.body, (), (), {}, (), 0)
+    return [p_ for p_ in passes.values() if p_["sites"]]
+
+
 _HELPER = re.compile(r"(?<![\w.])check_$")
 
 
@@ -880,24 +1793,36 @@ def _check_helper_name(rep: Report, ctx: Any) -> None:
     le = ix.cls("LiteralEnumProperty")
     gi = ix.find_method(le, "get_imports")
     rep.require(gi, "LiteralEnumProperty.get_imports")
-    # import site(s): import statements composed in get_imports (or a private helper of it) that name `check_` + something
+    # import site(s): the import lines that name `check_` + something - among the texts get_imports may return (put together from
+    # locals, from a tuple of names run through by a loop or comprehension, by a private helper, ...) and among the texts written down
+    # in get_imports or a private helper of it (handed on through code the evaluation does not follow)
     imp: list[str] = []
     mods: list[str] = []
+    sites: list[tuple[list[tuple[str, Any]], dict[str, ast.AST]]] = []  # (parts of a text, the once-bound locals of the function it stands in)
+    sv = StrEval(ix)
+    onces: dict[str, dict[str, ast.AST]] = {}
+    for alt in sorted(_vstrings(sv.call(gi, le, {})), key=parts_text):
+        # every computed part in terms of the function it was written in
+        owners = {sv.owner[id(v)].qual: sv.owner[id(v)] for k, v in alt if k == "expr" and id(v) in sv.owner}
+        once: dict[str, ast.AST] = {}
+        for q, g in owners.items():
+            once.update(onces.setdefault(q, _once_bound(g.node)))
+        sites.append((list(alt), once))
     for g in region(ix, gi):
         once = _once_bound(g.node)
         inner = {id(x) for n in ast.walk(g.node) if _stringish(n) for x in ast.walk(n) if x is not n}
         for n in ast.walk(g.node):
-            if not _stringish(n) or id(n) in inner:
-                continue
-            parts = _merge(_py_parts(n, once))
-            if not _IMPORT_LINE.match("".join(v if k == "lit" else "H" for k, v in parts)):
-                continue
-            names_at = [i for i, (k, v) in enumerate(parts) if k == "lit" and _HELPER.search(v) and i + 1 < len(parts)]
-            for i in names_at:
-                imp.append(_canon_py(parts[i + 1][1], ix, le, once))
-            if names_at:
-                mods += [_canon_py(parts[i + 1][1], ix, le, once) for i, (k, v) in enumerate(parts)
-                         if k == "lit" and v.endswith("models.") and i + 1 < len(parts)]
+            if _stringish(n) and id(n) not in inner:
+                sites.append((_merge(_py_parts(n, once)), once))
+    for parts, once in sites:
+        if not _IMPORT_LINE.match(parts_text(tuple(parts), "H")):
+            continue
+        names_at = [i for i, (k, v) in enumerate(parts) if k == "lit" and _HELPER.search(v) and i + 1 < len(parts)]
+        for i in names_at:
+            imp.append(_canon_py(parts[i + 1][1], ix, le, once))
+        if names_at:
+            mods += [_canon_py(parts[i + 1][1], ix, le, once) for i, (k, v) in enumerate(parts)
+                     if k == "lit" and v.endswith("models.") and i + 1 < len(parts)]
     # definition and use sites: template text `def check_` + expression / `check_` + expression
     dfn: list[str] = []
     use: list[str] = []
@@ -1110,6 +2035,139 @@ def _rebuilt_from_empty(rep: Report, ctx: Any) -> None:
                   f"removed earlier in the run on every path ({bad}): on regeneration, modules of an earlier document survive and import "
                   "model modules that no longer exist (ModuleNotFoundError)", e0.where,
                   lhs=sorted({f"{short(e.func)}::{e.what}" for e, _ in sites}), rhs=f"each dominated by rmtree of {d or '/'} or of a directory above it")
+
+
+# ---- R01.10 ---------------------------------------------------------------------------------------------------------------------------
+_EMPTY = ("set()", "frozenset()", "None", "()", "[]", "{}")
+
+
+def _dependants_handed_down(rep: Report, ctx: Any) -> None:
+    """R01.10.  When the definition of a class fails, everything that depends on it is removed with it, so that nothing that is written
+    imports a module that is not (ModuleNotFoundError otherwise).  What depends on a reference is recorded by the registry of the
+    schemas (the methods of Schemas that write `self.dependencies`): the *dependants* they are handed.  A piece that is built inside
+    another one (the item of an array, the member of a union, the property of a model) depends on whatever the enclosing piece depends
+    on; it learns that only by being handed the enclosing piece's dependants.  Necessary condition, for the parameter(s) through which
+    the registry receives them (read off the registry, `roots` today):
+      a function that has the parameter passes, at every call of a function of the package that accepts it, a value that contains
+        what it received: the parameter; a display that unpacks it; a union / copy of it; a local all of whose bindings are such;
+    (Not claimed: that a function which cannot carry the parameter never leads to one that accepts it - EnumProperty.build makes the
+    union of a nullable enum from schemas it writes itself, which refer to nothing.)  What the registry itself is told is C08 R08.6.
+    A call that leaves the parameter to its default, passes a fresh collection or one made from something else is reported."""
+    ix = ctx.py
+    sch = ix.cls("Schemas")
+    slots: set[str] = set()
+    recorders: set[str] = set()
+    for m in sch.methods.values():
+        params = {a.arg for a in m.params} - {"self"}
+        for n in ast.walk(m.node):
+            held: list[ast.AST] = []
+            if isinstance(n, ast.Call) and isinstance(n.func, ast.Attribute) and n.func.attr in ("update", "add", "union", "extend", "append") and \
+                    "self.dependencies" in norm(n.func.value):
+                held = list(n.args)
+            elif isinstance(n, (ast.Assign, ast.AugAssign)) and any("self.dependencies" in norm(t) for t in (n.targets if isinstance(n, ast.Assign) else [n.target])):
+                held = [n.value]
+            got = {x for h in held for x in names_in(h)} & params
+            if got:
+                slots |= got
+                recorders.add(m.qual)
+    rep.require(slots, "the parameter through which Schemas records the dependants of a reference (a method that adds to self.dependencies)")
+
+    def accepts(g: Any, slot: str) -> bool:
+        return slot in {a.arg for a in g.params}
+
+    def callees(f: Any, c: ast.Call) -> list[Any]:
+        """functions of the package the call may enter: as _callees, a plain name also through the module's imports or (unique) anywhere in
+        the package, a method of an unknown receiver when one class of the package defines a method of that name"""
+        got = _callees(ix, f, c)
+        if got:
+            return got
+        cn = call_name(c)
+        head, _, last = cn.rpartition(".")
+        if head == "":
+            r = ix.resolve(f.module, last)
+            if r and r[0] == "func":
+                return [r[1]]
+            hs = [h for h in ix.all_functions if h.cls is None and h.parent is None and h.name == last]
+            return hs if len(hs) == 1 else []
+        hs = [h for h in ix.all_functions if h.cls is not None and h.name == last and h.kind != "property"]
+        return hs if len({h.cls.qual for h in hs}) == 1 else []
+
+    def passed(g: Any, c: ast.Call, slot: str, lc: Locals) -> "tuple[bool, ast.AST | None]":
+        """(decidable, argument passed for the parameter or None when it is left to its default)"""
+        b = _bind(g, c)
+        if slot in b:
+            return True, b[slot]
+        for k in c.keywords:
+            if k.arg is None:  # **mapping: the entry of a mapping written down in the function, else not decidable
+                vals = lc.values_of(k.value.id) if isinstance(k.value, ast.Name) else [k.value]
+                if len(vals) != 1:
+                    return False, None
+                v = vals[0]
+                if isinstance(v, ast.Dict) and all(isinstance(x, ast.Constant) for x in v.keys):
+                    hit = [y for x, y in zip(v.keys, v.values) if x.value == slot]
+                elif isinstance(v, ast.Call) and call_name(v) == "dict" and not v.args and all(x.arg for x in v.keywords):
+                    hit = [x.value for x in v.keywords if x.arg == slot]
+                else:
+                    return False, None
+                if hit:
+                    return True, hit[0]
+        if any(isinstance(a, ast.Starred) for a in c.args):
+            return False, None
+        return True, None
+
+    def contains(e: "ast.AST | None", slot: str, lc: Locals, seen: frozenset = frozenset()) -> bool:
+        """the value of e contains everything the function received for the parameter"""
+        if e is None:
+            return False
+        if isinstance(e, ast.Name):
+            if e.id in seen:
+                return e.id == slot
+            defs = [(k, v) for k, _, v in lc.defs.get(e.id, []) if not k.startswith("aug")]  # `x |= ...` only adds
+            if e.id == slot:  # the parameter, possibly re-bound from itself (`roots = roots or set()`)
+                return all(v is not None and contains(v, slot, lc, seen | {slot}) for _, v in defs)
+            return bool(defs) and all(k.startswith("assign") and "[" not in k and contains(v, slot, lc, seen | {e.id}) for k, v in defs)
+        if isinstance(e, ast.NamedExpr):
+            return contains(e.value, slot, lc, seen)
+        if isinstance(e, (ast.Set, ast.List, ast.Tuple)):
+            return any(isinstance(x, ast.Starred) and contains(x.value, slot, lc, seen) for x in e.elts)
+        if isinstance(e, ast.BinOp) and isinstance(e.op, (ast.BitOr, ast.Add)):
+            return contains(e.left, slot, lc, seen) or contains(e.right, slot, lc, seen)
+        if isinstance(e, ast.BoolOp) and isinstance(e.op, ast.Or):  # `roots or set()`: falsy dependants are no dependants
+            return contains(e.values[0], slot, lc, seen)
+        if isinstance(e, ast.IfExp):  # both arms, an empty arm only where the test asks the parameter itself
+            arms = [e.body, e.orelse]
+            full = [contains(a, slot, lc, seen) for a in arms]
+            return any(full) and all(ok or (norm(a) in _EMPTY and slot in names_in(e.test)) for a, ok in zip(arms, full))
+        if isinstance(e, ast.Call):
+            cn = call_name(e)
+            if cn in ("set", "frozenset", "list", "tuple", "sorted", "copy", "copy.copy", "copy.deepcopy", "deepcopy") and len(e.args) == 1:
+                return contains(e.args[0], slot, lc, seen)
+            if isinstance(e.func, ast.Attribute) and e.func.attr in ("copy", "union", "__or__"):
+                return contains(e.func.value, slot, lc, seen) or (e.func.attr != "copy" and any(contains(a, slot, lc, seen) for a in e.args))
+        return False
+
+    n_fw = 0
+    for slot in sorted(slots):
+        for f in ix.all_functions:
+            if not accepts(f, slot) or f.qual in recorders:
+                continue
+            lc = Locals(f.node)
+            for c in ast.walk(f.node):
+                if not isinstance(c, ast.Call):
+                    continue
+                for g in callees(f, c):
+                    if not accepts(g, slot) or g.qual in recorders:  # what the registry itself is told is another matter (C08 R08.6)
+                        continue
+                    decidable, arg = passed(g, c, slot, lc)
+                    if not decidable:
+                        continue
+                    n_fw += 1
+                    gname = f"{g.cls.name}.{g.name}" if g.cls is not None else g.name
+                    rep.check(contains(arg, slot, lc), "R01.10", f"{short(f)}->{gname}::hands-down-{slot}",
+                              f"{short(f)} receives `{slot}` but does not hand them on here: what is built by this call is not removed together with "
+                              "the enclosing piece, and a module that imports a removed class survives (ModuleNotFoundError at import)",
+                              where(f, c), lhs=norm(arg) if arg is not None else "left to its default", rhs=f"{slot} or a collection that contains it")
+    rep.floor("dependants_handed_down", n_fw, 6)
 
 
 def _bind(g: Any, call: ast.Call) -> dict[str, ast.AST]:
